@@ -15,7 +15,7 @@ const (
 	EncDirectAggregate   = "KF-ENC-pointer-shaped-aggregate"
 	EncMapKeyStringText  = "FX-ENC-mapkey-string-textmarshaler" // fixed: the selector can never be active again
 	EncOmitemptyMarsh    = "KF-ENC-omitempty-on-marshaler"
-	EncMapKindMarsh      = "KF-ENC-map-kind-marshaler"
+	EncMapKindMarsh      = "FX-ENC-map-kind-marshaler"
 	EncNilPtrValueText   = "FX-ENC-nil-pointer-to-textmarshaler" // fixed: the selector can never be active again
 	EncPtrRecvNonAddr    = "KF-ENC-pointer-receiver-on-unaddressable"
 	EncMapOrderEscaped   = "KF-ENC-map-order-by-escaped-key"
